@@ -13,9 +13,12 @@ Specs     : spec/RandomGen.tla     generator re-seeding + reader size bookkeepin
                                    (declinations with rational sines): footprint + area law.
             spec/RandomGenTrace.tla trace validation of recorded operation logs.
 TLC       : ideal design (Deviations = {}) passes ExactSize, ReseedAtPassStart, Reproducible,
-            ReseedRestores, SeedControlled, CreateNeverRejected, Termination over ALL histories
-            of <= MaxOps public operations for every scenario (N, chunksize, patch_num,
-            probe_size); every deviation config yields its counterexample.
+            ReseedRestores, SeedAsRequested, SeedControlled, CreateNeverRejected,
+            ConstructNeverRejected, Termination over ALL histories of a construction (every seed of
+            InitSeeds = {0, 1}) + <= MaxOps public operations (reseed(s) for every s of Seeds and
+            reseed()) for every scenario (N, chunksize, patch_num, probe_size); every deviation
+            config yields its counterexample (FalsySeedIsNoSeed = seed C16-E: two counterexamples,
+            reseed(0) keeps the old seed / the constructor raises for seed 0).
 spec->code: every complete history TLC prints (operation, expected outcome, expected tokens,
             expected generator events) is executed on the REAL BoxRandoms / HealPixRandoms /
             RandomReader / Catalog.from_random (history tree walked depth first on deep copies
@@ -27,8 +30,11 @@ code->spec: random long operation sequences (realistic sizes) are executed on th
             the accepted behaviour are compared with the real arrays.
 oracle    : (only these raise a VIOLATION) number of points == requested; every point inside the
             window / unmasked pixels; every (weight, redshift) is a row of the source arrays;
-            points == points of a fresh generator with the same seed; a valid request is not
-            refused; cell fractions within 6 sigma of TLC's exact rationals (gross non-uniformity).
+            points == points of a fresh generator with the same seed (if the constructor itself
+            raises for that seed: of an unused generator that got the seed by reseed(seed)); a valid
+            request is not refused - any exception of a public constructor / call on a valid input is
+            a violation `C16|<entry point>|<input class, e.g. seed=0>|raises_<Type>`, never a crash
+            of the check; cell fractions within 6 sigma of TLC's exact rationals (gross non-uniformity).
 """
 
 from __future__ import annotations
@@ -525,6 +531,7 @@ class LibError(Exception):
 def lib(fn, *args, allow=(), **kwargs):
     """Call into the library; exceptions other than ``allow`` become LibError (so that
     bugs of this driver are never mistaken for defects of the library)."""
+    assert callable(fn), f"driver bug: {fn!r} is not callable"
     try:
         return fn(*args, **kwargs)
     except allow:
@@ -643,7 +650,8 @@ def _exec_entry(world: World, st: State, e: dict, sc: dict, F: Findings, path_op
             if out != "ok":
                 F.drift(f"C16|{cls}.__init__|outcome_differs_from_spec", dict(base_detail, got="ok"))
                 return False
-            return check_events(take_log(st.gen))
+            check_events(take_log(st.gen))  # how the constructor seeds itself is recorded (drift), the generator exists either way
+            return True
 
         if op in ("call", "frame"):
             tok = e["res"][0]
@@ -975,17 +983,20 @@ def make_worlds(yaw, root: Path, seed: int) -> dict:
 
 
 def history_plan(quick: bool) -> list:
-    """[(scenarios, MaxOps)]: all histories of <= MaxOps public operations are enumerated."""
+    """[(scenarios, MaxOps, InitSeeds)]: all histories of a construction with a seed of InitSeeds + <= MaxOps public
+    operations are enumerated (the deepest thorough job constructs with the non-zero seed only - reseed(0), reseed(s),
+    reseed() are explored at every point of it; construction with seed 0 at full depth 4)."""
     a = dict(kind="box", N=5, C=2, k=0, p=0)       # N = 2C+1, patch centres given
     b = dict(kind="box", N=12, C=6, k=1, p=10)     # N = 2C, patch_num with a user probe
     c = dict(kind="box", N=4, C=2, k=0, p=0)       # N = 2C
     if quick:
-        return [([a], 4), ([b, c], 3)]
-    return [([a], 5),
+        return [([a], 4, INIT_SEEDS), ([b, c], 3, INIT_SEEDS)]
+    return [([a], 5, (1,)),
+            ([a], 4, (0,)),
             ([b, c,
               dict(kind="box", N=2, C=3, k=0, p=0),      # N < C
               dict(kind="box", N=12, C=0, k=2, p=0),     # default chunksize, library default probe
-              dict(kind="box", N=20, C=7, k=2, p=20)], 4)]
+              dict(kind="box", N=20, C=7, k=2, p=20)], 4, INIT_SEEDS)]
 
 
 def size_scenarios(quick: bool) -> list:
@@ -1076,9 +1087,9 @@ def model_check(ctx, observed: tuple) -> dict:
         jobs.append(job)
 
     # 1. the ideal design over all histories / over the size sweep
-    for i, (hsc, depth) in enumerate(plan):
+    for i, (hsc, depth, iseeds) in enumerate(plan):
         add(("ideal_hist", i), gen_job(f"RandomGen ideal, all histories of <= {depth} operations, {len(hsc)} scenario(s)", hsc,
-                                       max_ops=depth, coverage=True, print_hist=not observed, frame_sizes=fs))
+                                       max_ops=depth, coverage=True, print_hist=not observed, frame_sizes=fs, init_seeds=iseeds))
     add(("ideal_size", 0), gen_job("RandomGen ideal, size sweep (N x chunksize x patch_num x probe_size)", ssc, max_ops=2, ops=size_ops,
                                    probe_sizes=(3, 10), print_hist=not observed))
     # healpix scenarios (replayed on the real HealPixRandoms)
@@ -1092,9 +1103,9 @@ def model_check(ctx, observed: tuple) -> dict:
                                 dev=("ProbeBoundedByRecords", "DefaultProbeClampedToRecords"), max_ops=2, liveness=False))
     if observed:
         # 2. the design variant the tree implements for probes larger than the catalog
-        for i, (hsc, depth) in enumerate(plan):
+        for i, (hsc, depth, iseeds) in enumerate(plan):
             add(("obs_hist", i), gen_job(f"RandomGen with {'+'.join(observed)} (as implemented), histories <= {depth} operations", hsc,
-                                         dev=observed, max_ops=depth, invariants=invs_obs, print_hist=True, frame_sizes=fs))
+                                         dev=observed, max_ops=depth, invariants=invs_obs, print_hist=True, frame_sizes=fs, init_seeds=iseeds))
         add(("obs_size", 0), gen_job(f"RandomGen with {'+'.join(observed)} (as implemented), size sweep", ssc, dev=observed, max_ops=2,
                                      ops=size_ops, probe_sizes=(3, 10), invariants=invs_obs, print_hist=True))
     # 3. every deviation yields its counterexample
@@ -1245,7 +1256,9 @@ def binding_selfcheck(ctx, worlds, results) -> None:
         F = Findings()
         ok = True
         for e in entries:
-            ok = exec_entry(world, st, e, sc, F, ["binding demonstration"], {}) and ok
+            ok = exec_entry(world, st, e, sc, F, ["binding demonstration"], {})
+            if not ok:
+                break  # the real state left the model (or the library raised): nothing below can be executed
         return ok, F
 
     done: dict = {}
@@ -1721,6 +1734,31 @@ def pool_runs(ctx, worlds, rng) -> None:
 
 
 def run(ctx) -> None:
+    """Verdict keys: a reproducibility finding on the edge-value seed 0 carries the input class ``...,seed=0``.  It stays a
+    key of its own only if the same entry point / history class does NOT fail for the non-zero seeds as well (a defect
+    specific to seed 0); otherwise it is an instance of the general defect and counted under the general key."""
+    held: list = []
+    general: set = set()
+    report = ctx.violation
+
+    def violation(key, detail):
+        if ",seed=0|" in key:
+            held.append((key, detail))
+        else:
+            general.add(key)
+            report(key, detail)
+
+    ctx.violation = violation
+    try:
+        _run(ctx)
+    finally:  # also after a machinery failure: what the real code showed before is evidence (harness.core reports it)
+        ctx.violation = report
+        for key, detail in held:
+            base = key.replace(",seed=0|", "|")
+            report(base if base in general else key, detail)
+
+
+def _run(ctx) -> None:
     quick = ctx.quick
     rng = random.Random(ctx.seed)
     t0 = time.time()
@@ -1734,13 +1772,16 @@ def run(ctx) -> None:
     ctx.require(randoms.HEALPY_ENABLED, "healpy stand-in was not installed before yaw was imported")
     ctx.require(fakehealpy.selftest() == [], f"healpy stand-in fails its defining properties: {fakehealpy.selftest()}")
     ctx.rule = (
-        "one evaluation = one public operation (gen(n), generate_dataframe, reseed, RandomReader(), get_probe, a pass, "
+        "one evaluation = one public operation (Randoms(seed=s), gen(n), generate_dataframe, reseed, RandomReader(), get_probe, a pass, "
         "Catalog.from_random) executed on the real library inside a TLC-generated history and compared with the spec's "
         "expectation (outcome, sizes, generator events, tokens realised on a brand-new generator, bit-exact); non-trivial = "
         "a probe/pass/catalog that is preceded by other use of the same generator; distinct = (generator configuration, "
         "scenario, operation sequence)"
     )
     ctx.assume("numpy's Generator is a deterministic function of the SeedSequence child it is built from (the token abstraction)")
+    ctx.assume("seed domain: the real seed 0 (falsy edge value) + two non-zero seeds per generator configuration (rotating over 1, 2, 7, "
+               "12345, 2**31, 2**32-1, 2**32, 2**63, 2**64+11, ...), each used for construction and for reseed(s) at any point of a "
+               "history; negative seeds are rejected by numpy's SeedSequence (invalid input, not explored)")
     ctx.assume("interleaving direct draws or a second reader INTO a running pass is outside the property ('used before'): "
                "the spec allows other operations only between passes (Abandon ends a pass early)")
     ctx.assume("healpy is not installed: HealPixRandoms runs on harness/fakehealpy.py (HEALPix nested/ring index arithmetic, "
@@ -1775,7 +1816,7 @@ def run(ctx) -> None:
         ctx.sample(dict(kind="size sweep", scenarios=c1["scenarios"], histories=c1.get("histories"),
                         example="from_random(N=12, chunksize=4) ; from_random again ; RandomReader pass: each 12 records in chunks 4,4,4"))
         # histories: full depth on rotating configurations
-        deadline = time.time() + (60 if quick else 1500)
+        deadline = time.time() + (75 if quick else 1500)
         c2 = replay_histories(ctx, worlds, mc["hist"], "histories", deadline=deadline,
                               world_pick=lambda i, sc: [worlds["box"][(i * 3 + j * 5 + ctx.seed) % (8 if sc["k"] else nbox)]
                                                         for j in range(1 if (quick or i == 0) else 2)])
